@@ -76,6 +76,9 @@ pub fn execute(sc: &MuxScenario, skip: Option<&[bool]>, st: &mut Stats) -> MuxOu
     if failed_end {
         st.inc("probe.write_end_failed");
     }
+    if sc.ops.iter().zip(run.results[1..].iter()).any(|(op, r)| matches!(op, Op::AddTrack(_)) && matches!(r, CallResult::Err(_))) {
+        st.inc("probe.rejected_add_track");
+    }
     MuxOutput { sim, run }
 }
 
